@@ -291,6 +291,32 @@ def family_readers(tier):
     return out
 
 
+def family_typed(tier):
+    """(D) typed attribute values: sets that differ only in the TYPE of a value with one textual form (int 1001 /
+    string "1001" / float64 1001, one-element slice [1001] / string "[1001]", bool true / string "true") on one
+    instrument: through a filter that keeps the typed key (distinct points, own totals), one that removes it (added
+    together), without a view, with and without the limit"""
+    th = tier == "thorough"
+    out = []
+    for j, (k, num) in enumerate([("counter", "i"), ("histogram", "f"), ("gauge", "i"), ("ocounter", "i"),
+                                  ("updown", "f"), ("oupdown", "f"), ("ogauge", "f")]):
+        if not th and j >= 4:
+            break
+        for t in ("delta", "cumulative"):
+            for L in ((0, 2, 3) if th and j < 4 else ((0, 3) if t == "delta" else (0, 2))):
+                out.append(cfg(L, t, [inst("i1", k, num)], [view("i1", keep=["a"])]))
+            out.append(cfg((0, 3)[j % 2], t, [inst("i1", k, num)], [view("i*", keep=["b"])]))
+        out.append(cfg((3, 0)[j % 2], ("delta", "cumulative")[j % 2], [inst("i1", k, num)]))
+    for t in ("delta", "cumulative"):
+        # two filtered streams of one instrument, one keeps the typed key; exponential histogram; two readers
+        out.append(cfg(0, t, [inst("i1", "counter")], [view("i1", name="r1", keep=["a"]), view("i1", name="r2", keep=["b"])]))
+        out.append(cfg(3, t, [inst("i1", "histogram")], [view("i1", agg="expo", keep=["a", "b"])]))
+    out.append(cfg(0, "", [inst("i1", "counter", "f")], [view("*", keep=["a"])], [reader("delta"), reader("cumulative")]))
+    return out
+
+
+SETS_TYPED = [{"a": 1001, "b": 1}, {"a": 2001, "b": 1}, {"a": 3001, "b": 1}, {"a": 4001, "b": 1}, {"a": 5001, "b": 1}]
+SETS_TYPED_THOROUGH = SETS_TYPED + [{"a": 6001, "b": 1}, {"a": 7001, "b": 1}]
 SETS_LIMIT_QUICK = [{"a": 1, "b": 0}, {"a": 2, "b": 0}, {"a": 0, "b": 1}]
 SETS_LIMIT_THOROUGH = SETS_LIMIT_QUICK + [{"a": 0, "b": 0}]
 SETS_VIEWS = [{"a": 1, "b": 1}, {"a": 1, "b": 2}, {"a": 2, "b": 1}]
@@ -311,6 +337,8 @@ def families(tier):
              steps=4 if th else 3, hsteps=4 if th else 3),
         dict(name="readers", configs=family_readers(tier), sets=SETS_SELECT,
              steps=4 if th else 3, hsteps=4 if th else 3),
+        dict(name="typed", configs=family_typed(tier), sets=SETS_TYPED_THOROUGH if th else SETS_TYPED,
+             steps=3, hsteps=3),
     ]
 
 
@@ -380,6 +408,12 @@ def classify(want, got, limit):
         tot = sum(p["s"] for p in w["pts"]) != sum(p["s"] for p in g["pts"]) or \
             sum(p["n"] for p in w["pts"]) != sum(p["n"] for p in g["pts"])
         if set(wp) != set(gp):
+            # typed values (>= 1000 = 1000 * type + n): sets that differ only in the type of a value were merged / mistaken
+            def text(pk):
+                return (pk[0], json.dumps({a: ([0, 0, 0, 0, 1, 1, 2, 2][v // 1000], v % 1000) if v >= 1000 else v
+                                       for a, v in json.loads(pk[1]).items()}, sort_keys=True))
+            if {text(x) for x in wp} == {text(x) for x in gp} and any(v >= 1000 for x in wp for v in json.loads(x[1]).values()):
+                return "value-type-identity+total" if tot else "value-type-identity"
             return "identity+total" if tot else "identity"
         for pk in wp:
             if wp[pk] != gp[pk]:
@@ -542,7 +576,8 @@ def run(ctx):
                  "scenarios_exact_name_fits_other_criterion_rejects", "scenarios_views_with_identical_streams",
                  "scenarios_views_with_distinct_streams", "scenarios_case_variant_stream_names_one_identity",
                  "scenarios_same_name_distinct_streams", "scenarios_scope_criterion", "scenarios_sibling_instruments",
-                 "edges_with_several_readers", "scenarios_several_readers", "scenarios_readers_differ_in_temporality",
+                 "edges_with_several_readers", "scenarios_several_readers",
+                 "edges_with_text_twin_sets", "random_text_twin_sets", "scenarios_readers_differ_in_temporality",
                  "scenarios_instrument_dropped_by_some_reader_only", "scenarios_reader_aggregation_selector",
                  "scenarios_several_readers_observable_opt_f", "scenarios_several_readers_observable_reg_i"):
         if only:
@@ -550,7 +585,9 @@ def run(ctx):
         if not counters.get(need):
             ctx.note_inconclusive("vacuity: counter %s is zero" % need)
     ctx.assumptions += [
-        "attribute values 1..n stand for their representatives (int / string / float / slice) chosen by the harness",
+        "attribute values 1..n stand for their representatives (int / string / float / slice) chosen by the harness; values "
+        ">= 1000 are typed (1000 * type + n, CardModel VType / VText): int, string, float64, one-element slice, bool "
+        "with equal textual forms are different values",
         "measurement values are small integers (exact in float64 instruments)",
         "outside the modelled domain (InDomain in CardModel.tla, re-evaluated by TLC on every configuration): two streams "
         "with one identity but different aggregation or filter, aggregations an instrument kind cannot use, two distinct "
